@@ -54,6 +54,7 @@ func genHint(t *rapid.T, v6 bool, mode string) Hint {
 		}
 	}
 	if v6 {
+		h.Form4 = rapid.IntRange(0, 3).Draw(t, "hint-form4") == 0 // only has an effect in v4-mapped pools
 		if rapid.Bool().Draw(t, "hint-inner") {
 			h.Inner = rapid.Uint64().Draw(t, "hint-innerv")
 		}
@@ -150,6 +151,13 @@ func GenCase(mode string) func(t *rapid.T) Case {
 			}
 			c.Page = c.PoolLen + k
 			base := maskTo(ip128(half(t, "basehi"), half(t, "baselo")), c.PoolLen)
+			if rapid.IntRange(0, 11).Draw(t, "v4mapped-pool") == 0 {
+				// a pool inside ::ffff:0:0/96: net.IPNet.Contains also matches 4-byte addresses against it
+				c.PoolLen = rapid.IntRange(96, 128-k).Draw(t, "poollen-v4mapped")
+				c.Page = c.PoolLen + k
+				lo := uint64(0xffff)<<32 | uint64(rapid.Uint32().Draw(t, "v4mapped-base"))
+				base = maskTo(ip128(0, lo), c.PoolLen)
+			}
 			c.Base = base.String()
 		} else {
 			sizes := []uint32{1, 2, 3, 4, 7, 63, 64, 65, 127, 128, 129, 256, 300}
